@@ -37,5 +37,10 @@ func optKind(e *executor, t toldUpdate) string {
 	if e.inRejectedReconfig {
 		return t.Kind + "-of-leftovers-from-a-rejected-reconfiguration"
 	}
+	if e.failedPendingBefore && t.Kind != "adjust" {
+		// decided before the container was opted out (or for its neighbours) while
+		// processing a request that then failed; delivered late (the C05 finding)
+		return t.Kind + ":after-failed-request"
+	}
 	return t.Kind
 }
